@@ -332,7 +332,7 @@ def position_preserving_probe(prog, chk, rid):
                 blk = f.blocks[pb]
                 if nb == pb or blk.get("cond") is None or len(blk["succ"]) != 2 or blk["succ"][0] == blk["succ"][1]:
                     continue
-                for an, tr in q.cond_atoms(f, blk["cond"], blk["succ"][0] == nb):
+                for an, tr in fin.edge_atoms(f, blk, nb):
                     cn = fin._canon(f, an, tr)
                     if cn[0] == "val":
                         continue
